@@ -251,6 +251,37 @@ fn range_index_oob_panics() {
     let _ = src[(i, j)];
 }
 
+// `should_panic` over a symbolic index only says that SOME out-of-rectangle index panics; the boundary indexes (column == width,
+// row == height) are the ones an off-by-one in the guard lets through, so each gets a concrete harness (every execution must panic).
+#[kani::proof]
+#[kani::unwind(8)]
+#[kani::should_panic]
+fn range_index_col_eq_width_panics() {
+    let src = any_src(2, 3);
+    let _ = src[(0, 3)];
+}
+#[kani::proof]
+#[kani::unwind(8)]
+#[kani::should_panic]
+fn range_index_row_eq_height_panics() {
+    let src = any_src(2, 3);
+    let _ = src[(2, 0)];
+}
+#[kani::proof]
+#[kani::unwind(8)]
+#[kani::should_panic]
+fn range_index_mut_col_eq_width_panics() {
+    let mut src = any_src(2, 3);
+    src[(0, 3)] = 7;
+}
+#[kani::proof]
+#[kani::unwind(8)]
+#[kani::should_panic]
+fn range_index_mut_row_eq_height_panics() {
+    let mut src = any_src(2, 3);
+    src[(2, 0)] = 7;
+}
+
 /// Kb twin of the Verus obligations set_value/C05.set_* (regression: the row-growth arm used to append one row too many): after set_value the buffer holds
 /// exactly height x width cells, the written cell reads back, every other cell keeps its value / is default.
 /// Old shape h x w at origin (1, 2); every target position from the start corner to 2 beyond the end corner.
